@@ -165,3 +165,89 @@ def change_delimiter_mid_life(c, strings, rng, ask):
     for s_ in strings:
         ask(c, s_)
     probe.S.counters["wl:delimiter-changed-mid-life"] += 1
+
+
+def growth_sweep(ctx, rng, d, g, every=97, relate=None):
+    """One case in `every`: a converter grows one registration at a time through every size from a few records to
+    140 (72 in the quick tier) - records with nested URI prefixes and synonyms, added bare and completed by merges - and
+    is asked after every step about its oldest, its newest and a random record.  A fast path, an index or a limit that
+    switches at *some* number of records or URI prefixes (a constant nobody outside the implementation knows) is
+    crossed on the way, in a converter that started below it."""
+    if g % every != every - 1:
+        return
+    api, S = ctx.api, probe.S
+    top = 140 if ctx.tier == "thorough" else 72
+    recs = gen.large_records(rng, top, d)
+    k0 = rng.choice([0, 1, 5, 12, 16, 17, 20])
+    with probe.monitor_mode():
+        c = api.Converter([gen.mk_record(api, r) for r in recs[:k0]], delimiter=d)
+    have = list(recs[:k0])
+
+    def ask_about(r):
+        for p in spec.all_p(r)[:2]:
+            q = p + d + "1"
+            outcome_of(c.expand, q)
+            outcome_of(c.expand_all, q)
+            outcome_of(c.expand_pair_all, p, "1")
+            outcome_of(c.standardize_prefix, p)
+            outcome_of(c.standardize_curie, q)
+            outcome_of(c.parse, q, strict=False)
+            outcome_of(c.is_curie, q)
+            if relate:
+                relate(c, q)
+        for u in spec.all_u(r)[:2]:
+            q = u + "1"
+            outcome_of(c.compress, q)
+            outcome_of(c.parse_uri, q, return_none=True)
+            outcome_of(c.standardize_uri, q)
+            outcome_of(c.compress_or_standardize, q)
+            outcome_of(c.is_uri, q)
+            if relate:
+                relate(c, q)
+
+    for r in recs[k0:]:
+        style = rng.random()
+        if style < 0.4 or not (r.psyn or r.usyn):
+            outcome_of(c.add_record, gen.mk_record(api, r))
+        elif style < 0.7:
+            outcome_of(c.add_prefix, r.prefix, r.uri_prefix, list(r.psyn), list(r.usyn))
+        else:  # bare first; the synonyms arrive through merges (the number of records stays what it is)
+            outcome_of(c.add_prefix, r.prefix, r.uri_prefix)
+            for x in r.psyn:
+                outcome_of(c.add_prefix, x, r.uri_prefix, merge=True)
+            for x in r.usyn:
+                outcome_of(c.add_prefix, r.prefix, x, merge=True)
+        have.append(r)
+        for who in {0, len(have) - 1, rng.randrange(len(have))}:
+            ask_about(have[who])
+        if len(have) % 16 == 0:
+            sub = outcome_of(c.get_subconverter, [have[0].prefix, r.prefix])
+            if sub[0] == "ret":
+                outcome_of(sub[1].expand, r.prefix + d + "1")
+    S.counters[f"wl:growth-sweeps:to-{top}:from-{k0}"] += 1
+    probe.note_key(f"growth-sweep:from{k0}", True)
+
+
+def long_lived(ctx, rng, d, g, every=211):
+    """One case in `every`: a converter answers 70000 distinct strings (unjudged - the point is what it may have
+    remembered), then learns a nested URI prefix, a synonym and a new record, and is asked the first strings again."""
+    if g % every != every - 1:
+        return
+    api = ctx.api
+    c = api.Converter([api.Record(prefix="OBO", uri_prefix="http://purl.obolibrary.org/obo/"), api.Record(prefix="x", uri_prefix="http://x/")], delimiter=d)
+    early = ["http://purl.obolibrary.org/obo/GO_0032571", "https://identifiers.org/hgnc:1234", "hgnc" + d + "1234", "GO" + d + "1", "OBO" + d + "GO_1"]
+    for q in early:
+        core_queries(c, q)
+    with probe.monitor_mode():
+        for i in range(70000):
+            c.compress(f"http://purl.obolibrary.org/obo/X_{i}")
+            if i % 7 == 0:
+                c.expand(f"x{d}{i}")
+                c.standardize_prefix(f"p{i}")
+    outcome_of(c.add_prefix, "GO", "http://purl.obolibrary.org/obo/GO_", ["gomf"], ["http://amigo.geneontology.org/amigo/term/GO:"])
+    outcome_of(c.add_prefix, "hgnc", "https://bioregistry.io/hgnc:", None, ["https://identifiers.org/hgnc:"])
+    outcome_of(c.add_prefix, "OBO", "http://purl.obolibrary.org/obo/", ["obo"], merge=True)
+    for q in early + ["obo" + d + "GO_1", "gomf" + d + "1"]:
+        core_queries(c, q)
+    probe.S.counters["wl:long-lived-converters"] += 1
+    probe.note_key("long-lived", True)
